@@ -49,6 +49,26 @@ func ddlVariant(st sq.State, variant string) ([]string, bool) {
 		// an index whose second key part is an expression, written compactly (no blank after the comma)
 		return append(sq.DDL(st), "CREATE INDEX zx ON t1(a,(a+1))"), false
 	}
+	if variant == "exprindexdesc" {
+		// ... and a descending expression part
+		return append(sq.DDL(st), "CREATE INDEX zx ON t1(a DESC,(a+1) DESC)"), false
+	}
+	if strings.HasPrefix(variant, "dflt:") {
+		// the default "one" written in another way
+		return sq.DDLWith(st, strings.TrimPrefix(variant, "dflt:")), false
+	}
+	if variant == "multiline" {
+		// the engine keeps the statement text verbatim: line breaks inside the predicate of a partial index and inside a CREATE TABLE
+		var out []string
+		for _, s := range sq.DDL(st) {
+			if strings.HasPrefix(s, "CREATE") && strings.Contains(s, " INDEX ") && strings.Contains(s, " WHERE ") {
+				i := strings.LastIndex(s, " WHERE ")
+				s = s[:i] + "\nWHERE " + strings.Replace(s[i+7:], " > ", "\n  > ", 1)
+			}
+			out = append(out, s)
+		}
+		return out, false
+	}
 	// rewrite: take the plain DDL and move eligible unique indexes into the CREATE TABLE
 	inline := map[string][]string{}
 	rest := sq.State{}
@@ -387,7 +407,30 @@ func exportMode(pairsFile, out string, workers int) {
 				jobs = append(jobs, job{st, "inline"})
 			}
 			if t1 := st["t1"]; t1.Present() && t1.Cols["a"].Type == "INT" && t1.Cols["a"].Gen == "" && len(jobs)%7 == 0 {
-				jobs = append(jobs, job{st, "exprindex"})
+				if len(jobs)%2 == 0 {
+					jobs = append(jobs, job{st, "exprindex"})
+				} else {
+					jobs = append(jobs, job{st, "exprindexdesc"})
+				}
+			}
+			hasDflt := false
+			for _, t := range st {
+				for _, c := range t.Cols {
+					hasDflt = hasDflt || (c.Type == "INT" && c.Dflt != "none")
+				}
+			}
+			if hasDflt && len(jobs)%5 == 0 {
+				sp := []string{"1", "1.0", "1e0", "+1", "0x1", "TRUE", `"1"`}
+				jobs = append(jobs, job{st, "dflt:" + sp[(len(jobs)/5)%len(sp)]})
+			}
+			partial := false
+			for _, t := range st {
+				for _, x := range t.Idx {
+					partial = partial || x.Where != ""
+				}
+			}
+			if partial && len(jobs)%3 == 0 {
+				jobs = append(jobs, job{st, "multiline"})
 			}
 		}
 	}
